@@ -2,6 +2,10 @@
 
 pub mod c01;
 pub mod c04;
+pub mod c05;
+pub mod c08;
+pub mod c09;
+pub mod c11;
 pub mod c12;
 pub mod c14;
 pub mod c16;
@@ -21,6 +25,10 @@ pub fn monitors_for(prop: &str) -> Vec<Box<dyn Monitor>> {
     match prop {
         "C01" => vec![Box::new(c01::C01::default())],
         "C04" => vec![Box::new(c04::C04)],
+        "C05" => vec![Box::new(c05::C05)],
+        "C08" => vec![Box::new(c08::C08)],
+        "C09" => vec![Box::new(c09::C09::default())],
+        "C11" => vec![Box::new(c11::C11)],
         "C12" => vec![Box::new(c12::C12)],
         "C14" => vec![Box::new(c14::C14::default())],
         "C16" => vec![Box::new(c16::C16::default())],
